@@ -47,6 +47,8 @@ class Check:
         self.disagreements = []      # dicts: key, detail
         self.notes = []
         self.workdir = tempfile.mkdtemp(prefix=f"verif_{pid}_")
+        import atexit
+        atexit.register(lambda d=self.workdir: shutil.rmtree(d, ignore_errors=True))     # also when the harness dies of an exception
         os.makedirs(REPLAYS, exist_ok=True)
         for old in os.listdir(REPLAYS):
             if old.startswith(pid + "-"):
